@@ -34,7 +34,7 @@ func init() {
 		ID:    "C18",
 		Level: "exploration",
 		Rule: "idx%8: 0 = wire case (process run, vector from {(1,1,0,0,1),(2,1,1,1,0),(1,0,0,0,0)}); 1 = argv vector (all vectors of length 0..2 over an 8-word alphabet in turn, length 3 sampled); 2 = interface fail-fast / traffic-mode case; " +
-			"3..7 = conf case (generated YAML: quoted / single-quoted / plain scalars, escapes in gnb_id, numeric extremes of the integer fields, comments, key order shuffled). distinct = hash(file / vector); all non-trivial",
+			"3..7 = conf case (generated YAML: quoted / single-quoted / plain scalars, escapes in gnb_id, numeric extremes of the integer fields, comments, key order shuffled). Configuration placements (regular, symlink, symlink chain, absolute symlink, hard link, read-only), values that read as environment references (a variable of the children's own is set), host names as address values (by index in one wire case in three), TAB inside values, very long values. distinct = hash(file / vector); all non-trivial",
 		Assumptions: []string{
 			"the documented keys are the 24 keys of src/config.yaml (the README's src_iface/dst_iface spelling is older; recorded as an observation)",
 			"interface values used: non-existent names and the idle ifb0/ifb1 only - never lo or eth0",
